@@ -94,6 +94,40 @@ def loader_cases(ctx, n):
     ctx.correspond("loader", IMPORTS, "load_case", "check_load_case", lits, cj, shard=200)
 
 
+def bundled_switches(ctx):
+    """The plugins that come with the agent are switched off by configuration too - given in code OR as the DEEP_ environment
+    variable: the one switched off is skipped, the rest are loaded as before."""
+    import deep.api.plugin as pl
+    from deep.config.config_service import ConfigService
+    from deep.config.tracepoint_config import TracepointConfigService
+    base = [p.name for p in pl.load_plugins(ConfigService({"APP_ROOT": "/app"}, tracepoints=TracepointConfigService()), [])]
+    for name in base:
+        key = "PLUGIN_%s" % name.upper()
+        for how in ("code", "environment"):
+            for word in ("false", "False"):
+                saved = os.environ.get("DEEP_" + key)
+                try:
+                    if how == "environment":
+                        os.environ["DEEP_" + key] = word
+                        cfg = ConfigService({"APP_ROOT": "/app"}, tracepoints=TracepointConfigService())
+                    else:
+                        cfg = ConfigService({"APP_ROOT": "/app", key: word}, tracepoints=TracepointConfigService())
+                    try:
+                        got = [p.name for p in pl.load_plugins(cfg, [])]
+                    except BaseException as e:
+                        got = "raised %r" % (e,)
+                finally:
+                    if saved is None:
+                        os.environ.pop("DEEP_" + key, None)
+                    else:
+                        os.environ["DEEP_" + key] = saved
+                j = dict(bundled=base, switched_off=name, how="%s %s=%s" % (how, ("DEEP_" if how == "environment" else "") + key, word), loaded=got)
+                ctx.case(j, nontrivial=True, bucket="bundled-switch")
+                if got != [n_ for n_ in base if n_ != name]:
+                    ctx.fail("with %s switched off (%s) the loaded plugins are %r; the others, %r, are expected" % (
+                        name, j["how"], got, [n_ for n_ in base if n_ != name]), j, tag="bundled-switch")
+
+
 def isolation(ctx, n):
     """Plugins of every kind raising at their callbacks: the others still run, the snapshot is still delivered."""
     from deep.api.attributes import BoundedAttributes
@@ -350,6 +384,7 @@ def run(ctx):
     ctx.extra_trusted.append("translator harness/translate/exnflow.py (loop bodies regenerated from /repo/src)")
     loader_cases(ctx, 600 if ctx.thorough else 120)
     isolation(ctx, 300 if ctx.thorough else 60)
+    bundled_switches(ctx)
     shutdown_reaches_every_plugin(ctx, 60 if ctx.thorough else 15)
 
 
